@@ -662,6 +662,10 @@ fn real_main() {
             m.get("seed").and_then(|s| s.parse().ok()).unwrap_or(1),
             m.get("n").and_then(|s| s.parse().ok()).unwrap_or(1000),
         ),
+        "f64-ops" => bourse_verif_harness::floatx::f64_ops(
+            m.get("seed").and_then(|s| s.parse().ok()).unwrap_or(1),
+            m.get("n").and_then(|s| s.parse().ok()).unwrap_or(1000),
+        ),
         "snap-dump" => snap_dump(&args[2], &args[3]),
         "snap-load" => snap_load(&args[2]),
         "sim-gen" => sim_gen(&m),
